@@ -59,7 +59,7 @@ pub fn ret_is_token(ret: u8) -> bool {
     (7..=10).contains(&ret)
 }
 
-fn render_callback(leaf: usize, enum_name: &str, ret: u8, salt: u32, bump: u8, first_unit: Option<usize>, own_variant: Option<usize>) -> String {
+fn render_callback(leaf: usize, enum_name: &str, enum_ty: &str, ret: u8, salt: u32, bump: u8, first_unit: Option<usize>, own_variant: Option<usize>) -> String {
     let nopts = ret_options(ret).len();
     // the variant a token-returning callback emits: the first unit variant of the enum (may differ from its own)
     let tokv = first_unit.or(own_variant).unwrap_or(0);
@@ -71,10 +71,10 @@ fn render_callback(leaf: usize, enum_name: &str, ret: u8, salt: u32, bump: u8, f
         4 => ("Result<logos::Skip, Ecb>".into(), vec!["Ok(logos::Skip)".into(), "Err(Ecb(v))".into()]),
         5 => ("logos::Filter<()>".into(), vec!["logos::Filter::Emit(())".into(), "logos::Filter::Skip".into()]),
         6 => ("logos::FilterResult<(), Ecb>".into(), vec!["logos::FilterResult::Emit(())".into(), "logos::FilterResult::Skip".into(), "logos::FilterResult::Error(Ecb(v))".into()]),
-        7 => (enum_name.into(), vec![format!("{enum_name}::V{tokv}")]),
-        8 => (format!("Result<{enum_name}, Ecb>"), vec![format!("Ok({enum_name}::V{tokv})"), "Err(Ecb(v))".into()]),
-        9 => (format!("logos::Filter<{enum_name}>"), vec![format!("logos::Filter::Emit({enum_name}::V{tokv})"), "logos::Filter::Skip".into()]),
-        10 => (format!("logos::FilterResult<{enum_name}, Ecb>"), vec![format!("logos::FilterResult::Emit({enum_name}::V{tokv})"), "logos::FilterResult::Skip".into(), "logos::FilterResult::Error(Ecb(v))".into()]),
+        7 => (enum_ty.into(), vec![format!("{enum_name}::V{tokv}")]),
+        8 => (format!("Result<{enum_ty}, Ecb>"), vec![format!("Ok({enum_name}::V{tokv})"), "Err(Ecb(v))".into()]),
+        9 => (format!("logos::Filter<{enum_ty}>"), vec![format!("logos::Filter::Emit({enum_name}::V{tokv})"), "logos::Filter::Skip".into()]),
+        10 => (format!("logos::FilterResult<{enum_ty}, Ecb>"), vec![format!("logos::FilterResult::Emit({enum_name}::V{tokv})"), "logos::FilterResult::Skip".into(), "logos::FilterResult::Error(Ecb(v))".into()]),
         11 => ("u64".into(), vec!["v".into()]),
         12 => ("Option<u64>".into(), vec!["Some(v)".into(), "None".into()]),
         13 => ("Result<u64, Ecb>".into(), vec!["Ok(v)".into(), "Err(Ecb(v))".into()]),
@@ -94,7 +94,7 @@ fn render_callback(leaf: usize, enum_name: &str, ret: u8, salt: u32, bump: u8, f
         }
     }
     format!(
-        "    #[allow(unused_variables)]\n    fn cb{leaf}<'s>(lex: &mut logos::Lexer<'s, {enum_name}>) -> {ty} {{\n        let (c, v) = subject_rt::cb_common(lex, {leaf}, {salt}, {bump}, {nopts});\n        match c {{ {body}}}\n    }}\n"
+        "    #[allow(unused_variables)]\n    fn cb{leaf}<'s>(lex: &mut logos::Lexer<'s, {enum_ty}>) -> {ty} {{\n        let (c, v) = subject_rt::cb_common(lex, {leaf}, {salt}, {bump}, {nopts});\n        match c {{ {body}}}\n    }}\n"
     )
 }
 
@@ -141,11 +141,15 @@ fn render_callback_module(idx: usize, sd: &SubjectDef) -> String {
     let mut s = String::new();
     s.push_str(&format!("pub mod d{idx} {{\n    #![allow(dead_code, unused_imports)]\n    use logos::Logos;\n    use subject_rt::{{Ecb, Log, Mode, Obs, Src, Subject, Tok, E}};\n\n"));
     let first_unit = (0..def.variants.len()).find(|&vi| !sd.has_value.get(nskips + vi).copied().unwrap_or(false));
+    // value variants without a callback hold the matched slice: the enum then needs the source lifetime
+    let slice_variant = |leaf: usize, p: &crate::spec::PatSpec| sd.has_value.get(leaf).copied().unwrap_or(false) && p.callback.is_none();
+    let lt = leaves.iter().enumerate().any(|(leaf, (p, v))| v.is_some() && slice_variant(leaf, p));
+    let slice_ty = if def.utf8 { "&'s str" } else { "&'s [u8]" };
     for name in ["T", "T1"] {
+        let ty = if lt { format!("{name}<'s>") } else { name.to_string() };
         for (leaf, (p, variant)) in leaves.iter().enumerate() {
             if let Some(cb) = &p.callback {
-                let _ = variant;
-                s.push_str(&render_callback(leaf, name, cb.ret, cb.salt, cb.bump, first_unit, *variant).replace(&format!("fn cb{leaf}<"), &format!("fn {}cb{leaf}<", name.to_lowercase())));
+                s.push_str(&render_callback(leaf, name, &ty, cb.ret, cb.salt, cb.bump, first_unit, *variant).replace(&format!("fn cb{leaf}<"), &format!("fn {}cb{leaf}<", name.to_lowercase())));
             }
         }
     }
@@ -206,7 +210,7 @@ fn render_callback_module(idx: usize, sd: &SubjectDef) -> String {
                 }
             }
         }
-        body.push_str(&format!("pub enum {name} {{\n"));
+        body.push_str(&format!("pub enum {name}{} {{\n", if lt { "<'s>" } else { "" }));
         for (leaf, (p, variant)) in leaves.iter().enumerate() {
             let Some(vi) = variant else { continue };
             let attr = if p.kind == crate::spec::PatKind::Token { "token" } else { "regex" };
@@ -214,7 +218,9 @@ fn render_callback_module(idx: usize, sd: &SubjectDef) -> String {
             if !skipped {
                 body.push_str(&format!("    #[{attr}({}{})]\n", p.lit.rust(), render_args(leaf, p, true)));
             }
-            if sd.has_value.get(leaf).copied().unwrap_or(false) {
+            if slice_variant(leaf, p) {
+                body.push_str(&format!("    V{vi}({slice_ty}),\n"));
+            } else if sd.has_value.get(leaf).copied().unwrap_or(false) {
                 body.push_str(&format!("    V{vi}(u64),\n"));
             } else {
                 body.push_str(&format!("    V{vi},\n"));
@@ -226,7 +232,7 @@ fn render_callback_module(idx: usize, sd: &SubjectDef) -> String {
             s.push_str(line);
             s.push('\n');
         }
-        s.push_str(&format!("    impl Tok for {name} {{\n        fn id(&self) -> usize {{ match self {{"));
+        s.push_str(&format!("    impl{} Tok for {name}{} {{\n        fn id(&self) -> usize {{ match self {{", if lt { "<'s>" } else { "" }, if lt { "<'s>" } else { "" }));
         for (leaf, (_, variant)) in leaves.iter().enumerate() {
             if let Some(vi) = variant {
                 if sd.has_value.get(leaf).copied().unwrap_or(false) {
@@ -239,7 +245,9 @@ fn render_callback_module(idx: usize, sd: &SubjectDef) -> String {
         s.push_str(" } }\n        fn val(&self) -> u64 { match self {");
         for (leaf, (_, variant)) in leaves.iter().enumerate() {
             if let Some(vi) = variant {
-                if sd.has_value.get(leaf).copied().unwrap_or(false) {
+                if slice_variant(leaf, leaves[leaf].0) {
+                    s.push_str(&format!(" {name}::V{vi}(x) => subject_rt::slice_val(x),"));
+                } else if sd.has_value.get(leaf).copied().unwrap_or(false) {
                     s.push_str(&format!(" {name}::V{vi}(x) => *x,"));
                 }
             }
